@@ -148,13 +148,17 @@ func getKeystoreFromJson(keysJson []byte) (*Keystore, error) {
 	return keystore, nil
 }
 
+func hasTrailingNUL(passphrase []byte) bool {
+	return len(passphrase) > 0 && passphrase[len(passphrase)-1] == 0
+}
+
 // NOTE: this func will leave the masterKeyPriv derived
 func (a *AddrManager) checkPassword(passphrase []byte) error {
-	// Every private passphrase that was ever set passed ValidatePassphrase.
-	// A candidate that does not is wrong - also when it would derive the
-	// right key: the key derivation's HMAC pads short keys with zero bytes,
-	// so the right passphrase followed by NUL bytes yields the same key.
-	if !ValidatePassphrase(passphrase) {
+	// The key derivation's HMAC pads short keys with zero bytes, so a
+	// passphrase followed by NUL bytes yields the same key as the passphrase
+	// itself. Such a candidate is refused; whoever really set a passphrase
+	// ending in NUL bytes unlocks with the same passphrase without them.
+	if hasTrailingNUL(passphrase) {
 		return ErrInvalidPassphrase
 	}
 	if a.unlocked {
@@ -204,7 +208,7 @@ func unmarshalMasterPrivKey(masterPrivKey *snacl.SecretKey, privPass []byte, mas
 	}
 	// (after Unmarshal: the caller zeroes the key it handed in, which
 	// Unmarshal allocates)
-	if !ValidatePassphrase(privPass) {
+	if hasTrailingNUL(privPass) {
 		return ErrInvalidPassphrase
 	}
 	err = masterPrivKey.DeriveKey(&privPass)
